@@ -8,6 +8,7 @@ CONSTANTS Nib = {0, 1, 15}
           SeqBatches = TRUE
           Depth = 25
           NBatch = 3
+          NKeys = 4
           BOps <- OpsAll
           BatchLens = {3, 4, 5, 7}
           BatchSet <- SimBatchSet
